@@ -359,6 +359,16 @@ class Ex(object):
             if r2 is not None and tm.round_to(r2, 53) == v:
                 self.nonsimple.append((self.cur_fn, ty, v, 'double-image', r2))
                 return tm.const(r2)
+        if r is None and self.snap_mode == 'lenient':
+            # a rounding of q*pi or q/pi (M_PI style literals): the intended value is the multiple of pi; in long double code a literal that is
+            # only the DOUBLE rounding of it is recorded like a double-image constant
+            for ty2 in ((ty,) if ty != 'f80' else ('f80', 'f64')):
+                hp = tm.snap_pi(v, ty2)
+                if hp is not None and (ty2 == ty or tm.round_to(v, 53) == v):
+                    q, inverse = hp
+                    if ty2 != ty:
+                        self.nonsimple.append((self.cur_fn, ty, v, 'double-image', 'pi*%s' % q if not inverse else '%s/pi' % q))
+                    return (tm.const(q) / tm.PI) if inverse else (tm.const(q) * tm.PI)
         if r is None:
             self.nonsimple.append((self.cur_fn, ty, v, 'nonsimple', None))
             return tm.const(v)
